@@ -17,4 +17,14 @@ PROPS = {
     "C02": P(2, ["C02"]),
     "C03": P(3, ["C03"]),
     "C15": P(15, ["C15"]),
+    "C16": P(16, ["C16"],
+        rule="model obs == Go obs (CORR) for every g64.* op; PROP verdict computed on Nat (Nat.log2, paths, minimal LE bytes) independent of the model; "
+             "all values < 2^17 (thorough; quick: < 2^12 + 1/16 slice), 2^k and 2^k±1, random values per bit-length class; distinct = distinct op lines",
+        explanation="BitIndex/BitLength/CoverDepth, all Gindex64 methods, the bit iterator, ToGindex64 and the three byte encodings are proved equal to their "
+                    "integer definitions for ALL uint64 inputs (ZtypV.Props.C16.*); the model is tied to /repo/tree/{bitlen,gindex}.go by the differential check",
+        assumptions=["Gindex interface values returned by Gindex64 methods are Gindex64 (harness type-asserts)",
+                     "Left/Right integer equality only when g < 2^63 (otherwise left_wrap: mod 2^64)",
+                     "Subtree/IsLeft properties for g >= 2; nav/iter PROP skipped for the invalid index 0 (CORR still checked)"],
+        trusted=COMMON_TRUST + ["Lean core UInt64/UInt8 semantics = Go uint64/uint8 (shift >= 64 handled by shl64/shr64 guards)",
+                 "encoding/binary PutUint64 modelled by putLE64/putBE64"]),
 }
